@@ -490,6 +490,7 @@ func createSwitchStatementChunks(stmt *ast.SwitchStatement, statementIndex int, 
 	branchCases := []*switchCaseBranch{}
 	i := 0
 	processedDefaultCase := false
+	var emptyCaseChunk *chunk
 	for i < len(stmt.Cases) {
 		switchCase := stmt.Cases[i]
 		destChunkID := -1
@@ -561,8 +562,25 @@ func createSwitchStatementChunks(stmt *ast.SwitchStatement, statementIndex int, 
 			// bodies, we want to completely omit even rendering the switch statement because
 			// it's a no-op. By early-returning here, we avoid adding the switch branchBehavior,
 			// which will result in the switch not being rendered in the output.
-			if len(branchCases) == 0 {
-				return remainingChunks, &jump{destChunkID: switchChunk.id}, returnID
+			if !processedDefaultCase {
+				if len(branchCases) == 0 {
+					return remainingChunks, &jump{destChunkID: switchChunk.id}, returnID
+				}
+			} else if !stmt.Cases[i].IsDefault {
+				// A default case with a body exists, so the trailing cases without a
+				// body have to branch around it explicitly.
+				if emptyCaseChunk == nil {
+					*chunkCounter++
+					emptyCaseChunk = &chunk{
+						id:       *chunkCounter,
+						returnID: returnID,
+					}
+					remainingChunks = append(remainingChunks, emptyCaseChunk)
+				}
+				branchCases = append(branchCases, &switchCaseBranch{
+					comparisonValue: stmt.Cases[i].Value,
+					destChunkID:     emptyCaseChunk.id,
+				})
 			}
 		} else if !stmt.Cases[i].IsDefault {
 			branchCases = append(branchCases, &switchCaseBranch{
